@@ -264,50 +264,64 @@ def leak_rules(prog, rep, only_files=None):
                         function=f.name, construct="nullchk:" + show(p))
             else:
                 rep.ok("NULLCHK", inst, s.where, "tested before any dereference")
-        # REALLOC idiom
-        for c in f.calls("realloc"):
-            par = None
-            for e in f.all_elems():
-                if e.is_assign and e.op == "=" and e.kid(1) is not None and e.kid(1).strip() is c:
-                    par = e
-            if par is None:
-                continue
-            rep.check(norm(par.kid(0)) != norm(c.arg(0)), "REALLOC", "%s in %s" % (par.text[:60], f.name), c.where,
-                      "the result of realloc must not be stored straight over its argument (the old block is lost on failure)",
-                      function=f.name, construct="realloc-self")
-            # once realloc has succeeded the old pointer is gone: the place it was read from takes the result before the function
-            # returns (on realloc's success edge, every path to the exit passes `p = result`)
-            old, res = norm(c.arg(0)), norm(par.kid(0))
-            if old == res or old[0] == "c":
-                continue
-            adopt = [e for e in f.all_elems() if e.is_assign and e.op == "=" and norm(e.kid(0)) == old and norm(e.kid(1)) == res]
-            succ = None
-            for b in f.blocks.values():
-                if b.cond is None or len(b.succs) != 2:
-                    continue
-                for truth, sx in ((True, b.succs[0]), (False, b.succs[1])):
-                    for op, Lt, R, Le, _ in cond_atoms(b.cond, truth):
-                        if op == "!=" and R == ("c", 0) and (Lt == res or (Le is not None and Le.strip() is c)):
-                            if c.block.id == b.id or f.dominates(c, b.cond):
-                                succ = sx if succ is None else succ
-            ok = bool(adopt)
-            if ok and succ is not None:
-                ablocks = set(a.block.id for a in adopt)
-                # a path from the success edge to the exit that avoids every adopting assignment
-                seen, work = set(), [succ]
-                while work and ok:
-                    nb = work.pop()
-                    if nb is None or nb in seen or nb in ablocks:
-                        continue
-                    seen.add(nb)
-                    if nb == f.exit:
-                        ok = False
-                    work.extend(f.blocks[nb].succs)
-            rep.check(ok, "REALLOC", "%s in %s: the result replaces the old pointer" % (c.text[:40], f.name), c.where,
-                      "after a successful realloc a path returns with %s still holding the old address (the block may have moved: every later use "
-                      "reads or writes freed memory)" % show(old), function=f.name, construct="realloc-adopt")
+        _realloc_idiom(f, rep)
     return acq
 
+
+
+def _realloc_idiom(f, rep):
+    # REALLOC idiom
+    for c in f.calls("realloc"):
+        par = None
+        for e in f.all_elems():
+            if e.is_assign and e.op == "=" and e.kid(1) is not None and e.kid(1).strip() is c:
+                par = e
+        if par is None:
+            continue
+        rep.check(norm(par.kid(0)) != norm(c.arg(0)), "REALLOC", "%s in %s" % (par.text[:60], f.name), c.where,
+                  "the result of realloc must not be stored straight over its argument (the old block is lost on failure)",
+                  function=f.name, construct="realloc-self")
+        # once realloc has succeeded the old pointer is gone: the place it was read from takes the result before the function
+        # returns (on realloc's success edge, every path to the exit passes `p = result`)
+        old, res = norm(c.arg(0)), norm(par.kid(0))
+        if old == res or old[0] == "c":
+            continue
+        adopt = [e for e in f.all_elems() if e.is_assign and e.op == "=" and norm(e.kid(0)) == old and norm(e.kid(1)) == res]
+        succ = None
+        for b in f.blocks.values():
+            if b.cond is None or len(b.succs) != 2:
+                continue
+            for truth, sx in ((True, b.succs[0]), (False, b.succs[1])):
+                for op, Lt, R, Le, _ in cond_atoms(b.cond, truth):
+                    if op == "!=" and R == ("c", 0) and (Lt == res or (Le is not None and Le.strip() is c)):
+                        if c.block.id == b.id or f.dominates(c, b.cond):
+                            succ = sx if succ is None else succ
+        ok = bool(adopt)
+        if ok and succ is not None:
+            ablocks = set(a.block.id for a in adopt)
+            # a path from the success edge to the exit that avoids every adopting assignment
+            seen, work = set(), [succ]
+            while work and ok:
+                nb = work.pop()
+                if nb is None or nb in seen or nb in ablocks:
+                    continue
+                seen.add(nb)
+                if nb == f.exit:
+                    ok = False
+                work.extend(f.blocks[nb].succs)
+        rep.check(ok, "REALLOC", "%s in %s: the result replaces the old pointer" % (c.text[:40], f.name), c.where,
+                  "after a successful realloc a path returns with %s still holding the old address (the block may have moved: every later use "
+                  "reads or writes freed memory)" % show(old), function=f.name, construct="realloc-adopt")
+
+
+def realloc_idiom_rule(prog, rep, only_files):
+    """REALLOC on the functions of the given files only (for properties that anchor a unit without running the whole LEAK family)."""
+    n = 0
+    for f in prog.all_funcs():
+        if f.file in only_files and any(True for _ in f.calls("realloc")):
+            n += 1
+            _realloc_idiom(f, rep)
+    return n
 
 
 REPORTED_EXCEPTIONS = {
